@@ -349,7 +349,12 @@ class OpGraph:
 
         # dummy trailing half-chain
         assert len(vlist_next) == 1
-        assert coeffs_next[0] == 1.0
+        if coeffs_next[0] != 1.0:
+            # a single operator acts on the last site: absorb the remaining
+            # coefficient into the edge(s) leading to the final node
+            for eid in graph.nodes[vlist_next[0].nidl].eids[0]:
+                edge = graph.edges[eid]
+                edge.opics = [(i, c * coeffs_next[0]) for i, c in edge.opics]
 
         # make left node the new end node of the graph
         graph.nid_terminal[1] = vlist_next[0].nidl
